@@ -47,6 +47,19 @@ impl StampCell {
 }
 #[verifier::external_body]
 pub struct WeakNode { _p: u8 }
+impl WeakNode {
+    #[verifier::external_body]
+    pub fn upgrade(&self) -> Option<NodeRef> { unimplemented!() }
+}
+#[verifier::external_body]
+pub struct ScopeStandIn { _p: u8 }
+impl ScopeStandIn {
+    #[verifier::external_body]
+    pub fn height(&self) -> (r: i32) ensures r < 0x7fff_fff0 { unimplemented!() }
+}
+/// nodes created on the rhs of a bind (invalidate_nodes_created_on_rhs): opaque here
+#[verifier::external_body]
+pub fn vx_invalidate_rhs_nodes_of(bind: &Rc<OpaqueKind>, state: &State) { unimplemented!() }
 #[verifier::external_body]
 pub struct ObserverMap { _p: u8 }
 pub uninterp spec fn obs_len(m: &ObserverMap) -> nat;
@@ -79,7 +92,13 @@ impl InvalidityStack {
     #[verifier::external_body]
     pub fn borrow_mut(&self) -> StackGuard { unimplemented!() }
 }
-pub struct State { pub num_nodes_became_unnecessary: CounterCell, pub recompute_heap: HeapHandle, pub propagate_invalidity: InvalidityStack }
+pub struct StampCellS { pub v: StabilisationNum }
+impl StampCellS {
+    #[verifier::external_body]
+    pub fn get(&self) -> (r: StabilisationNum) ensures r == self.v { unimplemented!() }
+}
+pub struct State { pub num_nodes_became_unnecessary: CounterCell, pub num_nodes_changed: CounterCell, pub num_nodes_invalidated: CounterCell,
+                   pub stabilisation_num: StampCellS, pub recompute_heap: HeapHandle, pub propagate_invalidity: InvalidityStack }
 impl State {
     #[verifier::external_body]
     pub fn set_height(&self, node: NodeRef, height: i32) { unimplemented!() }
@@ -124,6 +143,8 @@ pub struct Node {
     pub observers: ObserverMap,
     pub force_necessary: bool,
     pub height_in_recompute_heap: i32,
+    pub value_opt: Option<OpaqueKind>,
+    pub created_in: ScopeStandIn,
     pub changed_at_cell: StampCell,
     pub recomputed_at_cell: StampCell,
 }
@@ -316,6 +337,84 @@ impl Node {
 //@|         parent_ref.expert_payload() is Some,           // the new parent is a (valid) expert node
 //@|         forall|e: &ExpertLatch, i: int| may_run_edge_callback(e, i) <==> (parent_ref.expert_payload() == Some(e) && i == child_index),
 //@|     ensures false, // [linking-a-child-under-an-expert-node-always-runs-that-edges-callback-on-the-parent]
+//@end
+
+//@extract fn Node::maybe_change_value_manual@prefix
+//@ file: src/node.rs
+//@ impl: impl Node
+//@ name: maybe_change_value_manual
+//@ as: fn maybe_change_value_manual(&mut self, old_value_opt: Option<&OpaqueKind>, did_change: bool, run_child_changed: bool, state: &State) -> (r: Option<NodeRef>)
+//@ cells: changed_at
+//@ cut_after: self.maybe_handle_after_stabilisation(state)
+//@ props: C06 C09
+//@ contract:
+//@|     ensures
+//@|         did_change ==> final(self).changed_at == state.stabilisation_num.v, // [a-result-the-cutoff-did-not-suppress-is-stamped-with-this-stabilisation]
+//@|         final(self).recomputed_at == old(self).recomputed_at && final(self).is_valid == old(self).is_valid, // [frame]
+//@|     // only the prefix up to queueing the node for its handlers is under contract; that the stamp is left alone when
+//@|     // !did_change rests on frame/changed_at-written-only-on-change-or-invalidation (a single writer in this function)
+//@end
+
+//@extract fn Node::invalidate_node
+//@ file: src/node.rs
+//@ impl: impl ErasedNode for Node
+//@ name: invalidate_node
+//@ as: fn invalidate_node(&mut self, state: &State)
+//@ attr: #[verifier::exec_allows_no_decreases_clause]
+//@ cells: is_valid, value_opt, changed_at, recomputed_at, parents
+//@ tracing: yes
+//@ rule R8 re: `if let Some\(Kind::BindMain \{ bind, \.\. \}\) = self\.kind\(\) \{\s*let mut all = bind\.all_nodes_created_on_rhs\.borrow_mut\(\);\s*invalidate_nodes_created_on_rhs\(&mut all, state\);\s*\}` => `if let Some(Kind::BindMain { bind, .. }) = self.kind() { vx_invalidate_rhs_nodes_of(bind, state); }` x1
+//@ rule R8: `drop(prop_stack);` => `` x1
+//@ props: C05 C06 C09
+//@ contract:
+//@|     requires old(self).is_valid ==> (!old(self).necessary() || true),
+//@|     ensures
+//@|         !final(self).is_valid, // [an-invalidated-node-reports-itself-invalid]
+//@|         old(self).is_valid ==> final(self).value_opt is None, // [and-has-no-value]
+//@|         old(self).is_valid ==> final(self).changed_at == state.stabilisation_num.v && final(self).recomputed_at == state.stabilisation_num.v, // [stamped-so-dependants-are-stale-and-it-is-not]
+//@|         !old(self).is_valid ==> final(self).changed_at == old(self).changed_at && final(self).recomputed_at == old(self).recomputed_at && final(self).value_opt == old(self).value_opt, // [invalidating-twice-is-a-no-op]
+//@ loop 0:
+//@|     invariant !self.is_valid, self.value_opt is None, self.changed_at == state.stabilisation_num.v, self.recomputed_at == state.stabilisation_num.v,
+//@end
+
+//@extract fn Node::invalidate_node!must_release_children
+//@ file: src/node.rs
+//@ impl: impl ErasedNode for Node
+//@ name: invalidate_node
+//@ attr: #[verifier::exec_allows_no_decreases_clause]
+//@ cells: is_valid, value_opt, changed_at, recomputed_at, parents
+//@ tracing: yes
+//@ panics: diverge
+//@ rule R8 re: `if let Some\(Kind::BindMain \{ bind, \.\. \}\) = self\.kind\(\) \{\s*let mut all = bind\.all_nodes_created_on_rhs\.borrow_mut\(\);\s*invalidate_nodes_created_on_rhs\(&mut all, state\);\s*\}` => `if let Some(Kind::BindMain { bind, .. }) = self.kind() { vx_invalidate_rhs_nodes_of(bind, state); }` x*
+//@ rule R8: `drop(prop_stack);` => `` x*
+//@ as: fn invalidate_node__a_necessary_node_releases_its_children(&mut self, state: &State)
+//@ rule R8: `self.remove_children(state);` => `vx_diverge();` x*
+//@ props: C05
+//@ contract:
+//@|     requires old(self).is_valid, old(self).necessary(),
+//@|     ensures false, // [an-invalidated-node-that-is-necessary-for-whatever-reason-releases-its-children]
+//@ loop? 0:
+//@|     invariant true,
+//@end
+
+//@extract fn Node::invalidate_node!must_dequeue
+//@ file: src/node.rs
+//@ impl: impl ErasedNode for Node
+//@ name: invalidate_node
+//@ attr: #[verifier::exec_allows_no_decreases_clause]
+//@ cells: is_valid, value_opt, changed_at, recomputed_at, parents
+//@ tracing: yes
+//@ panics: diverge
+//@ rule R8 re: `if let Some\(Kind::BindMain \{ bind, \.\. \}\) = self\.kind\(\) \{\s*let mut all = bind\.all_nodes_created_on_rhs\.borrow_mut\(\);\s*invalidate_nodes_created_on_rhs\(&mut all, state\);\s*\}` => `if let Some(Kind::BindMain { bind, .. }) = self.kind() { vx_invalidate_rhs_nodes_of(bind, state); }` x*
+//@ rule R8: `drop(prop_stack);` => `` x*
+//@ as: fn invalidate_node__a_queued_node_is_dequeued(&mut self, state: &State)
+//@ rule R8: `state.recompute_heap.remove(self.packed());` => `vx_diverge();` x*
+//@ props: C05 C06
+//@ contract:
+//@|     requires old(self).is_valid, old(self).height_in_recompute_heap >= 0,
+//@|     ensures false, // [an-invalidated-node-that-is-queued-always-leaves-the-recompute-heap]
+//@ loop? 0:
+//@|     invariant self.height_in_recompute_heap >= 0,
 //@end
 
 //@extract fn Node::check_if_unnecessary
